@@ -6,12 +6,14 @@ import (
 	"fmt"
 	"net"
 	"net/netip"
+	"sort"
 	"strconv"
 	"strings"
 
 	"github.com/cilium/statedb"
 	"github.com/cilium/statedb/index"
 	"github.com/cilium/statedb/lpm"
+	"github.com/cilium/statedb/part"
 
 	"verif/harness/hx"
 )
@@ -42,6 +44,26 @@ func (*eng) Gen(r *hx.Rand, n int, tier string, prop string, out *hx.Out) {
 		ml = 3
 	}
 	keys := allKeys(ml)
+	out.P("#case keyset-adapters")
+	out.P("adapters -")
+	out.P("adapters 61")
+	out.P("adapters -,61")
+	out.P("adapters 62,61,6161,00,0100,ff")
+	{
+		g := r.Fork()
+		for i := 0; i < 40; i++ {
+			seen := map[string]bool{}
+			var hs []string
+			for j := g.Intn(7); j >= 0; j-- {
+				k := hx.Hex(keys[g.Intn(len(keys))])
+				if !seen[k] {
+					seen[k] = true
+					hs = append(hs, k)
+				}
+			}
+			out.P("adapters %s", strings.Join(hs, ","))
+		}
+	}
 	out.P("#case exh-nuk")
 	for _, p := range keys {
 		for _, s := range keys {
@@ -343,8 +365,87 @@ func cmpU(a, b uint64) int {
 	return 0
 }
 
+type strT string
+
+func (s strT) String() string { return string(s) }
+
+// keySetS: what a KeySet yields, in order, and whether Exists agrees with it
+func keySetS(ks index.KeySet) string {
+	var parts []string
+	ks.Foreach(func(k index.Key) {
+		parts = append(parts, hx.Hex(k))
+		if !ks.Exists(k) {
+			parts = append(parts, "!exists")
+		}
+	})
+	return strings.Join(parts, ",")
+}
+
 func (e *eng) Op(f []string, line string, out *hx.Out) {
 	switch f[0] {
+	case "adapters":
+		// adapters <hex,hex,...|->: the KeySet builders of the index package (StringSlice, StringerSlice, StringerSeq,
+		// StringerSeq2, Seq, Seq2, Set, StringMap) on distinct strings yield exactly the keys NewKeySet(String(s)...)
+		// yields (a map and a part.Set have their own order: compared as sets)
+		var ss []string
+		if f[1] != "-" {
+			for _, h := range strings.Split(f[1], ",") {
+				ss = append(ss, string(hx.UnHex(h)))
+			}
+		}
+		keys := make([]index.Key, len(ss))
+		st := make([]strT, len(ss))
+		m := map[string]int{}
+		set := part.NewSet[string]()
+		for i, x := range ss {
+			keys[i] = index.String(x)
+			st[i] = strT(x)
+			m[x] = i
+			set = set.Set(x)
+		}
+		want := keySetS(index.NewKeySet(keys...))
+		seq := func(yield func(strT) bool) {
+			for _, x := range st {
+				if !yield(x) {
+					return
+				}
+			}
+		}
+		seq2 := func(yield func(strT, int) bool) {
+			for i, x := range st {
+				if !yield(x, i) {
+					return
+				}
+			}
+		}
+		sorted := func(x string) string {
+			p := strings.Split(x, ",")
+			sort.Strings(p)
+			return strings.Join(p, ",")
+		}
+		bad := ""
+		for name, got := range map[string]string{
+			"StringSlice":   keySetS(index.StringSlice(ss)),
+			"StringerSlice": keySetS(index.StringerSlice(st)),
+			"StringerSeq":   keySetS(index.StringerSeq[strT](seq)),
+			"StringerSeq2":  keySetS(index.StringerSeq2[strT, int](seq2)),
+			"Seq":           keySetS(index.Seq(func(x strT) index.Key { return index.Stringer(x) }, seq)),
+			"Seq2":          keySetS(index.Seq2(func(x strT) index.Key { return index.Stringer(x) }, seq2)),
+		} {
+			if got != want {
+				bad += " !BAD:C18:keyset-adapter-" + name
+			}
+		}
+		if sorted(keySetS(index.StringMap(m))) != sorted(want) {
+			bad += " !BAD:C18:keyset-adapter-StringMap"
+		}
+		if sorted(keySetS(index.Set(set))) != sorted(want) {
+			bad += " !BAD:C18:keyset-adapter-Set"
+		}
+		if k, err := index.FromString(strings.Join(ss, "")); err != nil || !bytes.Equal(k, index.String(strings.Join(ss, ""))) {
+			bad += " !BAD:C18:FromString"
+		}
+		out.P("P:C18 ok%s", bad)
 	case "nuk":
 		// the inputs live in buffers with spare capacity filled with a sentinel: an encoder must neither write
 		// into its caller's memory nor return a key that aliases it
